@@ -44,6 +44,7 @@ type FuncContract struct {
 	Header   string
 	Requires []*Clause
 	Ensures  []*Clause
+	PanicsIf []*Clause // conditions (over the entry state) under which the function may panic
 	Assumes  []*Clause // postconditions callers may assume but the body is not checked against (listed as assumptions)
 	LoopInv  map[int][]*Clause
 	LoopDec  map[int]*Clause
@@ -276,7 +277,7 @@ func parseContractFile(pkg, path string) (*ContractFile, error) {
 			cf.Ranks[f[0]] = n
 		case "shared":
 			cf.Shared = append(cf.Shared, rest)
-		case "requires", "ensures", "assumes":
+		case "requires", "ensures", "assumes", "panics_if":
 			if cur == nil {
 				return nil, errf("%s outside func", word)
 			}
@@ -287,6 +288,8 @@ func parseContractFile(pkg, path string) (*ContractFile, error) {
 				cur.Requires = append(cur.Requires, c)
 			case "ensures":
 				cur.Ensures = append(cur.Ensures, c)
+			case "panics_if":
+				cur.PanicsIf = append(cur.PanicsIf, c)
 			default:
 				cur.Assumes = append(cur.Assumes, c)
 			}
@@ -681,6 +684,8 @@ func gcExists[T any](f func(T) bool) bool { var z T; return f(z) }
 func gcAllocated[T any](x T) bool { return true }
 func gcFresh[T any](x T) bool { return true }
 func gcSameRef[T any](a, b T) bool { return false }
+// gcSliceAt: a is the window of b's storage that starts at element lo of b
+func gcSliceAt[T any](a, b []T, lo int) bool { return false }
 // channel ghost state: producer index, consumer index, element at a position, flags
 func gcTail[T any](ch chan T) int { return 0 }
 func gcHead[T any](ch chan T) int { return 0 }
